@@ -2,7 +2,7 @@
     Only statements here; proofs are in SM/PathNormProofs.v.  [raise_if] is the condition under which
     RawFileSystem._resolve_path raises RootEscapeError, regenerated from filesys.py into Gen/Containment_gen.v. *)
 From Coq Require Import List NArith Bool.
-From SV Require Import SM.PathNorm SM.PathNormProofs Gen.Containment_gen.
+From SV Require Import SM.PathNorm SM.PathNormProofs SM.PathOps SM.PathOpsProofs SM.PathWalkRel Gen.Containment_gen Gen.FsOps_gen.
 Import ListNotations.
 
 (** Census obligation: every file-system access of RawFileSystem goes through _resolve_path. *)
@@ -49,7 +49,156 @@ Theorem c18_strprefix_guard_refuted :
     ~ seg_prefix (segs (abspath cwd root_arg)) (segs a).
 Proof. exact strprefix_guard_refuted. Qed.
 
+(** os.path.commonprefix (character-wise) as the guard: rejected by the recogniser and refuted by the same witness. *)
+Theorem c18_commonprefix_guard_refuted :
+  raise_sound guard_commonprefix = false /\
+  exists cwd root_arg path a,
+    is_abs cwd = true /\ resolve guard_commonprefix true cwd root_arg path = Ok a /\
+    ~ seg_prefix (segs (abspath cwd root_arg)) (segs a).
+Proof. exact commonprefix_guard_refuted. Qed.
+
 (** packlist.unify_path: an accepted path never steps above its base directory, except the bare '..'. *)
 Theorem c18_unify_path_no_parent : forall p r, unify_path p = Some r ->
   stays_below 0 (segs r) = true \/ segs r = [dd].
 Proof. exact unify_path_no_parent. Qed.
+
+(** ... semantically: followed from ANY base directory (stack of components), an accepted pack path ends in the base
+    or below it without ever leaving it; the bare '..' corner is exactly the parent directory. *)
+Theorem c18_unify_path_follows_below_base : forall p r, unify_path p = Some r ->
+  (forall base : list str, exists extra, follow base (segs r) = Some (extra ++ base))
+  \/ (segs r = [dd] /\ forall b base, follow (b :: base) (segs r) = Some base).
+Proof. exact unify_path_follows_below_base. Qed.
+
+(** '..' can only be the last segment of an accepted pack path. *)
+Theorem c18_unify_path_dotdot_only_last : forall p r, unify_path p = Some r ->
+  forall l1 l2, segs r = l1 ++ dd :: l2 -> l2 = [].
+Proof. exact unify_path_dotdot_only_last. Qed.
+
+(** ------------------------------------------------------------------ operations, File handles, chains, os.walk.
+    [raw_sites], [chain_calls], [other_sites] are regenerated from filesys.py (Gen/FsOps_gen.v): the data flow of every
+    call of RawFileSystem that reaches the operating system.  Instance obligations checked on every run. *)
+Definition every_os_call_receives_a_resolve_result : bool := sites_ok raw_sites.
+Definition handle_consumers_revalidate_stored_string : bool := sites_ok (handle_sites raw_sites).
+Definition chain_and_file_classes_touch_no_file_system : bool := match other_sites with [] => true | _ => false end.
+(** informational (false today: _get_file validates [name] and stores [name.replace('\\','/')]) *)
+Definition handles_store_the_validated_string : bool :=
+  forallb (fun x : String.string * pexp * pexp => pexp_eqb (snd (fst x)) (snd x)) raw_validated_then_stored.
+
+(** Every path that any RawFileSystem operation of today's source hands to the operating system — for every
+    string argument, every File handle (whatever strings it carries) — is inside the root. *)
+Theorem c18_every_access_inside :
+  raise_sound raise_if = true -> sites_ok raw_sites = true ->
+  forall cwd root_arg, is_abs cwd = true ->
+  forall s i a, In s raw_sites -> peval raise_if true cwd root_arg i (st_arg s) = Some a ->
+    inside (abspath cwd root_arg) a.
+Proof. intros Hg Hs cwd root_arg Hc. exact (ops_accesses_inside raise_if cwd root_arg raw_sites Hg Hc Hs). Qed.
+
+(** The generic statement: any table of sites whose path arguments are _resolve_path results, any sound guard. *)
+Theorem c18_ops_accesses_inside :
+  forall g cwd root_arg (sites : list site),
+    raise_sound g = true -> is_abs cwd = true -> sites_ok sites = true ->
+    forall s i a, In s sites -> peval g true cwd root_arg i (st_arg s) = Some a -> inside (abspath cwd root_arg) a.
+Proof. exact ops_accesses_inside. Qed.
+
+(** Lookup, then consume the returned handle (which stores a transformed name): inside. *)
+Theorem c18_lookup_then_consume_inside :
+  forall g cwd root_arg (sites : list site) (st : store),
+    raise_sound g = true -> is_abs cwd = true -> sites_ok sites = true ->
+    forall s i data hpath a, In s sites ->
+      peval g true cwd root_arg i (so_data st) = Some data ->
+      peval g true cwd root_arg i (so_path st) = Some hpath ->
+      peval g true cwd root_arg
+        {| i_arg := i_arg i; i_data := data; i_hpath := hpath; i_prefix := i_prefix i; i_walked := i_walked i |}
+        (st_arg s) = Some a ->
+      inside (abspath cwd root_arg) a.
+Proof. exact lookup_then_consume_inside. Qed.
+
+(** Trusting a handle because the looked-up name was validated is refuted: name "..\secret.txt" under /t/root. *)
+Theorem c18_trusting_validated_name_refuted :
+  exists cwd root_arg name validated data opened,
+    is_abs cwd = true /\
+    resolve guard_rstrip_sep true cwd root_arg name = Ok validated /\
+    seg_prefixb (segs (abspath cwd root_arg)) (segs validated) = true /\
+    peval guard_rstrip_sep true cwd root_arg
+      {| i_arg := name; i_data := []; i_hpath := []; i_prefix := []; i_walked := [] |} (PUnbs PArg) = Some data /\
+    peval guard_rstrip_sep true cwd root_arg
+      {| i_arg := name; i_data := data; i_hpath := data; i_prefix := []; i_walked := [] |}
+      (st_arg unsafe_open_site) = Some opened /\
+    seg_prefixb (segs (abspath cwd root_arg)) (segs (abspath cwd opened)) = false /\
+    peval guard_rstrip_sep true cwd root_arg
+      {| i_arg := name; i_data := data; i_hpath := data; i_prefix := []; i_walked := [] |}
+      (PResolve PHandleData) = None.
+Proof. exact trusting_validated_name_refuted. Qed.
+
+(** FileSystemChain members: every access a chain call causes in a constrained member is inside the member's root,
+    for every prefix and argument. *)
+Theorem c18_chain_accesses_inside :
+  raise_sound raise_if = true -> sites_ok raw_sites = true ->
+  forall cwd root_arg, is_abs cwd = true ->
+  forall c s i a, In c chain_calls -> In s raw_sites -> chain_access raise_if cwd root_arg i c s = Some a ->
+    inside (abspath cwd root_arg) a.
+Proof.
+  intros Hg Hs cwd root_arg Hc c s i a _. exact (chain_accesses_inside raise_if cwd root_arg raw_sites Hg Hc Hs c s i a).
+Qed.
+
+(** ... but the prefix itself is not a jail (observation, not part of C18). *)
+Theorem c18_chain_prefix_not_confined_refuted :
+  exists cwd root_arg prefix name a,
+    chain_access guard_rstrip_sep cwd root_arg
+      {| i_arg := name; i_data := []; i_hpath := []; i_prefix := prefix; i_walked := [] |}
+      chain_getfile_call resolved_arg_site = Some a /\
+    seg_prefixb (segs (abspath cwd root_arg)) (segs a) = true /\
+    seg_prefixb (segs (pjoin (abspath cwd root_arg) prefix)) (segs a) = false.
+Proof. exact chain_prefix_not_confined_refuted. Qed.
+
+(** walk_folder: with os.walk as an arbitrary function that obeys the OS contract (dirpaths are the top joined with
+    entry names; entry names have no separator and are not '', '.', '..'), every file found and every directory
+    listed is inside the root. *)
+Theorem c18_walk_found_inside :
+  forall os_walk : str -> list (str * list str),
+    (forall top d fs, In (d, fs) (os_walk top) ->
+       (exists names, forallb entry_nameb names = true /\ d = descend top names) /\ forallb entry_nameb fs = true) ->
+    forall g cwd root_arg folder top d fs f,
+      raise_sound g = true -> is_abs cwd = true ->
+      resolve g true cwd root_arg folder = Ok top ->
+      In (d, fs) (os_walk top) -> In f fs ->
+      inside (abspath cwd root_arg) d /\ inside (abspath cwd root_arg) (pjoin d f).
+Proof.
+  intros w Hw g cwd root_arg folder top d fs f Hg Hc Hr Hin Hf. split.
+  - exact (walk_dirs_inside w Hw g cwd root_arg folder top d fs Hg Hc Hr Hin).
+  - exact (walk_found_inside w Hw g cwd root_arg folder top d fs f Hg Hc Hr Hin Hf).
+Qed.
+
+(** The working directory at call time is irrelevant (os.chdir between construction and use changes nothing):
+    the containment theorem holds with the two working directories kept apart. *)
+Theorem c18_cwd_at_call_irrelevant :
+  forall g con cwd0 cwd1 root_arg path, is_abs cwd0 = true ->
+    resolve2 g con cwd0 cwd1 root_arg path = resolve g con cwd0 root_arg path.
+Proof. exact resolve_cwd_at_call_irrelevant. Qed.
+
+(** What [inside] means for the OS: following the segments of an inside path from '/' never goes up, arrives at the
+    root directory and every later step is at or below it. *)
+Theorem c18_inside_walk_stays_in_root : forall root a, inside root a ->
+  exists rest,
+    segs a = segs root ++ rest /\
+    forall k, follow [] (segs root ++ firstn k rest) = Some (rev (firstn k rest) ++ rev (segs root)).
+Proof. exact inside_walk_stays_in_root. Qed.
+
+(** Fidelity of walk_folder: the handle it yields stores relpath(join(dirpath, file), root) with the slashes changed;
+    when there is no backslash to change, opening the handle computes a path with exactly the segments of the file
+    os.walk found (so a yielded handle opens what was listed).  relpath is modelled in SM/PathWalkRel.v and compared
+    with os.path.relpath by the correspondence. *)
+Theorem c18_walk_yield_names_the_file_found :
+  forall os_walk : str -> list (str * list str),
+    (forall top d fs, In (d, fs) (os_walk top) ->
+       (exists names, forallb entry_nameb names = true /\ d = descend top names) /\ forallb entry_nameb fs = true) ->
+    forall g cwd root_arg folder top d fs f,
+      raise_sound g = true -> is_abs cwd = true ->
+      resolve g true cwd root_arg folder = Ok top ->
+      In (d, fs) (os_walk top) -> In f fs ->
+      let root := abspath cwd root_arg in
+      let file := pjoin d f in
+      let y := relpath cwd file root in
+      unbackslash y = y ->
+      segs (abspath cwd (pjoin root (unbackslash y))) = segs file.
+Proof. exact walk_yield_names_the_file_found. Qed.
